@@ -5,7 +5,7 @@ ID = 'C14'
 PKG = '.'
 HARNESS_FILES = ['pkg/frame/zz_verif_common.go', 'pkg/frame/zz_verif_dialect.go', 'pkg/frame/zz_verif_c02.go',
                  'pkg/frame/zz_verif_c05.go', 'pkg/frame/zz_verif_c06.go', 'pkg/frame/zz_verif_export.go',
-                 'pkg/frame/zz_verif_msgs.go', 'pkg/timednetconn/zz_verif_c14.go', 'zz_verif_node.go', 'zz_verif_c14.go']
+                 'pkg/frame/zz_verif_msgs.go', 'pkg/timednetconn/zz_verif_c14.go', 'zz_verif_node.go', 'zz_verif_c14.go', 'zz_verif_life.go']
 KERNEL_PKGS = ['.']
 CLOCK_PKGS = ['.', 'pkg/timednetconn']
 ROOTS = [r'verifHarness_C14']
@@ -30,6 +30,8 @@ def tasks(tier):
             for udp in (0, 1):
                 ts.append(Task('verifHarness_C14_client', [udp, fails, second]))
     ts.append(Task('verifHarness_C14_terminated', []))
+    for busy in (0, 1):
+        ts.append(Task('verifHarness_C14_read_failure', [busy], {'x25_uf': True}))
     for one in (0, 1):
         for cd in (0, 1):
             ts.append(Task('verifHarness_C14_provider', [one, cd]))
@@ -37,7 +39,7 @@ def tasks(tier):
 
 
 def required_reach(tier):
-    return ['C14/T1', 'C14/T2s', 'C14/T2c', 'C14/T3']
+    return ['C14/T1', 'C14/T2s', 'C14/T2c', 'C14/T3', 'C14/L2']
 
 
 def bounds(tier):
